@@ -210,11 +210,17 @@ def escape_parity_scanners(res, fx, rule='ESCAPE-PARITY', only=None):
             continue
         loops = C.natural_loops(g)
         bools = {v['d']: v for v in g.walk() if v['k'] == 'VarDecl' and v.type().replace('const ', '').strip() in ('bool', '_Bool')}
-        for d, vd in sorted(bools.items()):
+        # a `bool &` parameter of a helper is a flag its caller carries from one call (one character) to the next
+        refps = set()
+        for p_ in g.params:
+            if p_.get('d') is not None and g.ptype(p_).replace(' ', '') in ('bool&', '_Bool&'):
+                bools[p_['d']] = None
+                refps.add(p_['d'])
+        for d, vd in sorted(bools.items(), key=lambda kv: str(kv[0])):
             asg = [n for n in g.walk() if n['k'] == 'BinaryOperator' and n.get('op') == '=' and A.strip_casts(n['ch'][0]).get('d') == d]
-            vdp = g.pos(vd['i'])
+            vdp = g.pos(vd['i']) if vd is not None else None
             # loop-carried: declared outside a loop in which it is assigned and read
-            carried = False
+            carried = d in refps and bool(asg)
             for (h, body) in loops:
                 if vdp is not None and vdp[0] not in body and any(P.pos_of(g, a) and P.pos_of(g, a)[0] in body for a in asg) \
                         and any(u['k'] == 'DeclRefExpr' and u.get('d') == d and P.pos_of(g, u) and P.pos_of(g, u)[0] in body for u in g.walk()):
@@ -226,7 +232,7 @@ def escape_parity_scanners(res, fx, rule='ESCAPE-PARITY', only=None):
                 for x in e.walk():
                     if what(x):
                         return True
-                    if x['k'] == 'DeclRefExpr' and x.get('d') in bools and depth < 1 and x.get('d') != d:
+                    if x['k'] == 'DeclRefExpr' and x.get('d') in bools and bools[x['d']] is not None and depth < 1 and x.get('d') != d:
                         iv = bools[x['d']]
                         if iv['ch'] and mentions(iv['ch'][0], what, depth + 1):
                             return True
@@ -250,9 +256,10 @@ def escape_parity_scanners(res, fx, rule='ESCAPE-PARITY', only=None):
                 guarded = any(A.strip_casts(P.strip_not(g.nodes[c_])[0]).get('d') == d and (t_ != P.strip_not(g.nodes[c_])[1]) for (c_, t_) in C.guards_of_block(g, P.pos_of(g, a)[0]))
                 if not (mentions(rhs, is_self) or guarded):
                     ok = False
-            res.ob(rule, g.where(vd), '%s: escape flag `%s` is never raised for an escaped character' % (g.q.split('::')[-1], vd.get('n')), ok, function=g.q, key='%s|%s|%s' % (rule, g.q, vd.get('n')),
+            fname = vd.get('n') if vd is not None else [p_.get('n') for p_ in g.params if p_.get('d') == d][0]
+            res.ob(rule, g.where(vd) if vd is not None else g.where(), '%s: escape flag `%s` is never raised for an escaped character' % (g.q.split('::')[-1], fname), ok, function=g.q, key='%s|%s|%s' % (rule, g.q, fname),
                    message='%s: the flag `%s` is set for every backslash, including one that was itself escaped: in `a\\\\*` the second backslash then "escapes" the live `*`, so the pattern is '
-                           'classified as matching a single value although it matches many' % (g.q, vd.get('n')))
+                           'classified as matching a single value although it matches many' % (g.q, fname))
     return n_ep
 
 
@@ -303,7 +310,11 @@ def run(res, tier):
     res.ob('META-TABLE', f.where(sw), 'ERE metacharacters passed to regcomp unescaped (%s) are tokens' % ''.join(sorted(passed)), not missing, function=f.q,
            how='neutralised by the translator: %s' % sorted(neutral), key='META-TABLE|muscle::IsRegexToken|engine:%s' % ''.join(missing),
            message='%s reach the regex engine unescaped (REG_EXTENDED) but IsRegexToken does not report them: an escaped string containing them does not match only itself' % missing)
-    g = fx.fn1('muscle::CanWildcardStringMatchMultipleValues', pred=lambda x: x.file.endswith('.cpp'))
+    g0 = fx.fn1('muscle::CanWildcardStringMatchMultipleValues', pred=lambda x: x.file.endswith('.cpp'))
+    # the scanning half may have been split off into a file-static helper that gets the same string (msa/ip.py): the token classification is judged where it is, the backtick test anywhere in the scope
+    from msa import ip as IP
+    sc_ = IP.scope(fx, g0, r'^muscle::\w+$')
+    g = next((h_ for h_ in sc_ if any(c.is_call() and (c.get('q') or '') == 'muscle::IsRegexToken' for c in h_.walk())), g0)
     uses = [c for c in g.walk() if c.is_call() and (c.get('q') or '') == 'muscle::IsRegexToken']
     firstarg = False
     for c in uses:
@@ -314,9 +325,9 @@ def run(res, tier):
             cursors = set(v['d'] for v in g.walk() if v['k'] == 'VarDecl' and v['ch'] and A.strip_casts(v['ch'][0]).get('d') == g.params[0]['d'] and v.type().rstrip().endswith('*'))
             firstarg = any(op_ == '==' and ((l_.get('d') in cursors and r_.get('d') == g.params[0]['d'])) for (l_, op_, r_) in A.rel_forms(G.local_init(g, x), True))
     bt = any(l['k'] == 'ArraySubscriptExpr' and l['ch'][1].get('v') == 0 and r.get('v') == 96
-             for n in g.walk() if n['k'] == 'BinaryOperator' and n.get('op') in ('==', '!=') for (l, op_, r) in A.rel_forms(n, True))
+             for h_ in sc_ for n in h_.walk() if n['k'] == 'BinaryOperator' and n.get('op') in ('==', '!=') for (l, op_, r) in A.rel_forms(n, True))
     res.ob('META-TABLE', g.where(), 'CanWildcardStringMatchMultipleValues uses IsRegexToken(c, c is first) and treats a leading backtick as multi-match', bool(uses) and firstarg and bt, function=g.q,
-           key='META-TABLE|%s|consistent' % g.q, message='the can-match-multiple-values test no longer classifies characters with IsRegexToken in the right position class (or ignores the backtick prefix): '
+           key='META-TABLE|%s|consistent' % g0.q, message='the can-match-multiple-values test no longer classifies characters with IsRegexToken in the right position class (or ignores the backtick prefix): '
                                                          'the traversal fast path treats a real pattern as a literal')
     e = fx.fn1('muscle::EscapeRegexTokens')
     uses = [c for c in e.walk() if c.is_call() and (c.get('q') or '') == 'muscle::IsRegexToken']
